@@ -213,7 +213,7 @@ func caseRcptRoot(c *vf.Ctx, i, K int) {
 		l2 := append(append([]*types.Receipt(nil), list...), list[n-1])
 		if !bs.present && bytes.Equal(mkReceipts(l2, bs, vs).MerkleRoot(), root0) {
 			a.count("rcptroot.duplicate_last_collides")
-			noteDup(c, "receipts-root", n, root0)
+			noteDup("receipts-root", i, n, root0)
 		} else {
 			a.count("rcptroot.duplicate_last_differs_or_bloom_leaf_last")
 		}
